@@ -496,3 +496,46 @@ pub fn gen_c12t(tier: Tier, seed: u64) -> Case {
     }
     thr_case("C12", seed, &g, program, threads, class)
 }
+
+/// C04 (THR): bulk ingestion and journaled writes from several threads, fjall's workers flushing
+/// and compacting meanwhile; then every handle is dropped and the directory reopened: the content
+/// all read paths agreed on before the close is the content afterwards (no linearizability
+/// verdict here - that is C14's - only close/reopen equality).
+pub fn gen_c04t(tier: Tier, seed: u64) -> Case {
+    let mut c = gen_c14(tier, seed ^ 0x00c0_4c04);
+    let mut r = Rng::stream(seed, "c04t");
+    // every run ingests; ingested tombstones are left to the SEQ part (recorded finding there)
+    let n_ks = c.cfg.names.iter().filter(|n| n.as_str() != "z").count() as u64;
+    let mut next_id = 1000u32;
+    for t in &mut c.threads {
+        for op in t.iter_mut() {
+            if let Op::Ingest { items, .. } = op {
+                for (_, v) in items.iter_mut() {
+                    if v.is_none() {
+                        next_id += 1;
+                        *v = Some(Val { id: next_id, size: 8, compressible: true });
+                    }
+                }
+            }
+        }
+    }
+    let n_keys = c.cfg.keys.len() as u64;
+    let mut items: Vec<(u8, Option<Val>)> = vec![];
+    for key in 0..n_keys as u8 {
+        if r.chance(2, 3) {
+            next_id += 1;
+            items.push((key, Some(Val { id: next_id, size: *r.pick(&[8u32, 100]), compressible: true })));
+        }
+    }
+    if items.is_empty() {
+        items.push((0, Some(Val { id: next_id + 1, size: 8, compressible: true })));
+    }
+    let ks = r.below(n_ks.max(1)) as u8;
+    let at = r.usize(c.threads.len());
+    let pos = r.usize(c.threads[at].len() + 1);
+    c.threads[at].insert(pos, Op::Ingest { ks, items });
+    c.prop = "C04".into();
+    c.class = format!("thr-ingest-{}", c.class);
+    c.seed = seed;
+    c
+}
